@@ -80,6 +80,25 @@ theorem zoned_months_op (z : Zoned) (hz : ZInv z) (l : NaiveDT)
   · unfold Zoned.sub_months_op; rw [s2, expectSome_ok]
   · unfold Zoned.sub_months_op; rw [s2, expectSome_ok, orPanic_panic_iff]; exact s3.2
 
+/-! ### the closure of `DateTime::with_year` against the specification's reading -/
+
+theorem with_year_local (l : NaiveDT) (hext : ExtDateInv l.date) (y' : Int) :
+    withYearLocal y' l = .ok (yearReading? l y') := by
+  obtain ⟨n1, _⟩ := ndt_ops_ext l hext 0 0 y'
+  unfold withYearLocal yearReading?
+  by_cases hc : y' = l.date.year
+  · rw [if_pos hc.symm, if_pos hc]
+  · rw [if_neg (fun h => hc h.symm), if_neg hc, n1]
+    refine congrArg Res.ok ?_
+    unfold ymdDate? ymdReading?
+    by_cases hr : MIN_YEAR ≤ y' ∧ y' ≤ MAX_YEAR
+    · rw [if_pos hr]
+      by_cases hv : validYmd y' (monthOfYo l.date.year l.date.ordinal.toNat)
+          (dayOfYo l.date.year l.date.ordinal.toNat) = true
+      · rw [if_pos ⟨hr.1, hr.2, hv⟩, if_pos hv]; rfl
+      · rw [if_neg (fun h => hv h.2.2), if_neg hv]; rfl
+    · rw [if_neg hr, if_neg (fun h => hr ⟨h.1, h.2.1⟩)]; rfl
+
 /-! ### the `Datelike` defaults as `NaiveDateTime` / `DateTime<Tz>` inherit them -/
 
 theorem quarter_eq (d : Date) : Datelike.quarter d.month = d.quarter := by
